@@ -45,6 +45,8 @@ PROPS = {
             "level": "proof"},
     "C19": {"targets": [CLOUDM + "BaseCloud.get_token", CLOUDM + "BaseCloud._post_request", CLOUDM + "NetHomePlusCloud._parse_response",
                         CLOUDM + "NetHomePlusCloud.login", CLOUDM + "NetHomePlusCloud._Security.encrypt_password#derivation", DISCM + "Discover._get_cloud",
+                        CLOUDM + "SmartHomeCloud.__init__", CLOUDM + "SmartHomeCloud._Security.sign#derivation", CLOUDM + "SmartHomeCloud._Security.encrypt_password#derivation",
+                        CLOUDM + "SmartHomeCloud._Security.encrypt_iam_password#derivation",
                         "msmart.lan.Security.udpid", DISCM + "Discover._authenticate_device"],
             "level": "proof"},
     "C17": {"targets": [DISCM + "Discover.discover_single", DISCM + "_DiscoverProtocol.__init__", DISCM + "Discover._get_device_version", DISCM + "Discover._get_device_info#wellformed", DISCM + "Discover._get_device_class",
